@@ -43,6 +43,13 @@ func installRand(seed int64) {
 func setRandStep(key string) {
 	globalRand.mu.Lock()
 	globalRand.stepKey = key
+	// a step always starts its streams afresh, so that repeating a step (E3
+	// repeats one call per fault site) draws the same bytes again
+	for k := range globalRand.streams {
+		if k != "background" {
+			delete(globalRand.streams, k)
+		}
+	}
 	globalRand.mu.Unlock()
 }
 
